@@ -569,6 +569,21 @@ CLAIMED.update({
 
 
 _more("C04", "Added (C04-changelist): the changelist decision table of C05 is part of this check too — a change dropped or cancelled there makes the backend report what nobody asked for.")
+_more("C19", "Added (C19-rearm): who may switch a direction back on — every call through the bufferevent_ops `enable` slot in bufferevent*.c is accounted for: bufferevent_unsuspend_read_/write_ are "
+      "evaluated over (suspend flags, flag dropped, enabled word): the slot is called iff nothing suspends the direction any more and bufev->enabled still has it (after EOF/ERROR it has not); "
+      "bufferevent_enable is evaluated: the slot gets the requested directions minus the suspended ones after the request was recorded; any other site needs a dominating test of bufev->enabled "
+      "for its direction (one named exception: a new connect arms the write event).", "who-may-call over a function-pointer slot + finite evaluation (K3/K6)")
+_more("C21", "Added (C21-tick-eval): ev_token_bucket_get_tick_ evaluated with C integer semantics on pairs of instants, including pairs that straddle multiples of 2^32 milliseconds, for six tick "
+      "lengths: the difference modulo 2^32 of the two tick numbers lies between floor and ceiling of the elapsed time in ticks — the tick count the refill is fed is the time that passed.")
+_more("C23", "Added: chunk sizes that do not fit the counter (17+ hex digits, 2^63 and above) — the chunked evaluation requires that no body byte is delivered and the trailer stage is not reached "
+      "(refusing or waiting are both accepted); a size with leading zeros is the control.")
+_more("C24", "Added: the overflowing chunk sizes of C23 are part of the chunked evaluation here too.")
+_more("C25", "Added (C25-headers-eval): one call of evhttp_parse_headers_ is evaluated on scripted reads (0-3 lines of two lengths, ending in a field line, a continuation line or the blank line; "
+      "running total before the call 0/35/95 of a limit of 100; 0/30/70 bytes still buffered; with and without a connection): the result, the number of lines handed on before the limit fails, "
+      "and the total left in the request (old total plus every line consumed) are those of the limit rule — the contract of one call composes over any segmentation of the header section. The "
+      "shape clauses accept a local running total that is initialised from the field and only increased.", "finite evaluation of the header-section accounting (K6)")
+_more("C11", "Added: event_reinit is evaluated with a wake-up pending at fork time (is_notify_pending=1): after a successful reinit of a notifiable base the flag is clear (found and repaired a genuine "
+      "defect: the child swallowed every later cross-thread wake-up).")
 _more("C04", "Added (C04-evmap): the reader/writer counts of an fd are stored only after the backend accepted the add (C05's rule, run here as well) — counts stored before a failing "
       "backend add make the next add believe the fd is registered, and the backend is never told about events this property promises to deliver.")
 _more("C35", "Added: the compression-table lookup is decided by evaluation — on every table of up to three distinct names (prefixes and suffixes of one another) and seven looked-up names the "
